@@ -670,7 +670,7 @@ def cylindrical_component_average_is_area_and_weight_weighted_mean(ctx, n, patte
 # similar.  Component-level averaging then raises IndexError when that member comes first and otherwise drops the
 # content of its additional component (plain-Python reproduction in the report).  The "outer" layout instances are
 # switched on when this flag is False.
-KNOWN_DEFECT_similarity_check_compares_only_common_prefix = True
+KNOWN_DEFECT_similarity_check_compares_only_common_prefix = False  # repaired in /repo (fix: 15743d2)
 ODD_LAYOUTS = ("inner",) if KNOWN_DEFECT_similarity_check_compares_only_common_prefix else ("inner", "outer")
 
 
